@@ -308,7 +308,7 @@ def _replay_transparency(args: dict) -> str | None:
                     return None
                 kw = {"method_name": "m"} if tc._takes(st._CallStateCache.put, "method_name") else {}
                 warm.app._call_state_cache.put(key[0], owner, resolved, exp - warm.app._call_state_cache._ttl, **kw)
-        helper.clock.now = _T0 + args["d1"]
+        warm.clock.now = cold.clock.now = helper.clock.now = _T0 + args["d1"]  # one module clock: the innermost world's
         mkw = {"method_name": "m"} if tc._takes(st._mint_cursor_token, "method_name") else {}
         cur2, _sb = st._mint_cursor_token(tc.RealStateA(who="m", n=1), tc.RealStateA, s2["call_id"], _KEY, _R, **mkw)
         cursor = [s1["cursor"], cur2, tc.RealWorld.GARBAGE][tok_sel]
